@@ -22,19 +22,20 @@
 #include <ctype.h>
 
 static void FuncSUBSTR(TempResult* pResult, TempResult const* pArgs, unsigned ArgCnt) {
-    int cnt = pArgs[0].Contents.str.len - pArgs[1].Contents.Int;
+    LargeInt start = (pArgs[1].Contents.Int < 0) ? 0 : pArgs[1].Contents.Int;
+    LargeInt cnt   = (LargeInt)pArgs[0].Contents.str.len - start;
 
     UNUSED(ArgCnt);
     if ((pArgs[2].Contents.Int != 0) && (pArgs[2].Contents.Int < cnt)) {
         cnt = pArgs[2].Contents.Int;
     }
     if (cnt < 0) {
-        cnt = 0;
+        cnt   = 0;
+        start = 0;
     }
     as_tempres_set_c_str(pResult, "");
     as_nonz_dynstr_append_raw(
-            &pResult->Contents.str, pArgs[0].Contents.str.p_str + pArgs[1].Contents.Int,
-            cnt);
+            &pResult->Contents.str, pArgs[0].Contents.str.p_str + start, (int)cnt);
 }
 
 static void FuncSTRSTR(TempResult* pResult, TempResult const* pArgs, unsigned ArgCnt) {
